@@ -46,8 +46,11 @@ struct W {
     ctr: u64,
 }
 
+/// world code 7 = genesis period 6 with a staking requirement the wallet cannot fund (every
+/// attempt to produce a block fails in the wallet's staking path and must leave it untouched)
 fn init(g: u64) -> Result<W, String> {
-    let p = Prod::new(g, 5000, 0)?;
+    let (g, staking) = if g == 7 { (6, 10_000_000_000u64) } else { (g, 0) };
+    let p = Prod::new(g, 5000, staking)?;
     Ok(W { p, g, committed: BTreeSet::new(), reorged: false, pending_registered: g != 3, abandoned: None, ctr: 0 })
 }
 
@@ -249,6 +252,12 @@ fn apply(w: &mut W, op: Op, rep: &mut Report, hist: &[Op]) -> bool {
                             w.committed.remove(&s.get_utxoset_key());
                         }
                     }
+                    true
+                }
+                Produced::NoBlock => {
+                    // the producer gave up (for instance: the wallet cannot fund the stake). The
+                    // attempt is a step of its own: the wallet must come out of it unchanged
+                    rep.outcome("block-attempt-produced-nothing");
                     true
                 }
                 _ => false,
@@ -591,7 +600,8 @@ pub fn main(tier: Tier, _replay: Option<String>) -> i32 {
     let mut all_seen: BTreeSet<Hash> = BTreeSet::new();
     // genesis period 3: outputs expire inside the bound; genesis period 6: nothing expires, so that
     // what a reorganisation gives back to the wallet is still young enough to be spent again
-    for g in [3u64, 6] {
+    for g in [3u64, 6, 7] {
+    let depth = if g == 7 { depth.min(3) } else { depth };
     let mut seen: crate::audit::MergeAudit<Vec<Op>> = crate::audit::MergeAudit::new();
     let mut frontier: Vec<Vec<Op>> = vec![vec![]];
     let mut level = 0;
